@@ -124,6 +124,7 @@ func unsupported(f string, a ...interface{}) {
 type Run struct {
 	// names used by the contract for locals / parameters that the source now calls differently (see rebind.go)
 	localAlias                  map[string]string
+	loopRemap                   map[*ssa.BasicBlock]*LoopSpec // remap.go: loop header -> the loop clauses attached to it
 	eng                         *Engine
 	top                         *ssa.Function
 	contract                    *FuncContract
